@@ -227,6 +227,24 @@ def _posterior(case, ctx, g):
     for pol, lst in results.items():
         for m2, c2 in lst[1:]:
             ctx.close("order_independent", torch.cat([m2.reshape(-1), c2.reshape(-1)]), torch.cat([lst[0][0].reshape(-1), lst[0][1].reshape(-1)]), (1e-9, 1e-9), cls="order:" + pol)
+    # the same model next gets targets with the SAME observed values but another pattern of missing entries (targets-only
+    # set_train_data, default strictness): its predictions follow the new pattern
+    if not mt and case["pattern"] != "none":
+        miss2 = torch.roll(miss, 1, -1)
+        if bool(miss2.any()) and not bool(miss2.all(-1).any()) and not torch.equal(miss2, miss):
+            yn2 = y.clone()
+            yn2[miss2] = float("nan")
+            model.set_train_data(targets=yn2)
+            pol = case["order"][-1]
+            mflat2 = miss2 if not (pol == "mask" and miss2.dim() > 1) else miss2.any(0, keepdim=True).expand_as(miss2)
+            ref_m2, ref_c2 = _dense_ref(model, lik, X, y, mflat2, xs, mt)
+            try:
+                with S.observation_nan_policy(pol), S.fast_pred_var(case["fast_pred_var"]), torch.no_grad():
+                    out2 = model(xs)
+                ctx.close("posterior_mean", out2.mean.reshape(ref_m2.shape), ref_m2, "direct", cls=f"{case['model']}:{pol}:new_pattern:mean", policy=pol, quantity="mean", new_pattern=True)
+                ctx.close("posterior_covar", out2.covariance_matrix.reshape(ref_c2.shape), ref_c2, "loose" if case["fast_pred_var"] else "direct", cls=f"{case['model']}:{pol}:new_pattern:covar", policy=pol, quantity="covar", new_pattern=True)
+            except Exception as e:
+                ctx.fail("call_raised", f"model(x*) after a new NaN pattern raised {type(e).__name__}: {str(e)[:150]}", "raise", exc=type(e).__name__, policy=pol)
     if len(case["order"]) == 1:
         ctx.hit("order_independent", 0)
     ctx.cell({k: v for k, v in case.items() if k != "seed"}, nontrivial=bool(miss.any()) and not bool(miss.all()))
